@@ -12,7 +12,7 @@ import scipy.optimize
 
 from skgstat import Variogram, models
 
-from .common import quiet, frs, fr, parse_nums, close, all_close, gen_coords, gen_values
+from .common import quiet, frs, fr, parse_nums, close, all_close, gen_coords, gen_values, floatbits, parse_floatbits
 
 INFO = dict(
     rule='seeded data sets (incl. two far clusters producing empty lag classes) x models x use_nugget x fit_sigma '
@@ -137,6 +137,16 @@ def check_case(ctx, case):
                 None if call['sigma'] is None else call['sigma'].tolist(), ms), case)
     ctx.lean.ask(['c05', 'filter', frs(edges), ' '.join('nan' if math.isnan(v) else fr(v) for v in exp),
                   'none' if fs is None else frs(fs)], cb)
+    if isinstance(case['fit_sigma'], str) and fs is not None:
+        # named weights: generated formula (Float twin) on x = lag edge / largest lag edge
+        xrel = (edges / np.max(edges)).tolist()
+
+        def cbs(f):
+            m = parse_floatbits(f[0])
+            if not all_close(m, fs.tolist(), rel=1e-12):
+                ctx.violation('fit-sigma-formula', "fit_sigma=%r: weights %r, generated formula %r" % (
+                    case['fit_sigma'], fs.tolist(), m), case)
+        ctx.lean.ask(['c05', 'sigma', case['fit_sigma'], floatbits(xrel)], cbs)
     if case['method'] == 'trf':
         names = case['model'].split('+')
 
